@@ -109,6 +109,21 @@ def check_case(case):
     labs = features(model)
     counters = {}
     sidx = ns["state"]
+    # default values (constant expressions such as 1/3, 2*3, exp(1)) reach the init functions
+    for which, key, kind in (("state", "states", "state"), ("parameter", "params", "parameter")):
+        if not model[key]:
+            continue
+        try:
+            got0 = np.asarray(ns[f"init_{which}_values"](), dtype=float)
+        except Exception as ex:
+            raise Violation(f"C01:init_{which}_values:call-{type(ex).__name__}", {"text": text, "error": str(ex)[:300]})
+        for ent in model[key]:
+            try:
+                ref0 = refsem.const_value(ent["value"])
+            except refsem.RefError:
+                continue
+            if not oracle.close(got0[ns[kind][ent["name"]]], ref0):
+                raise Violation(f"C01:init_{which}_values-mismatch", {"text": text, "name": ent["name"], "expected": oracle.fmt(ref0), "got": oracle.fmt(got0[ns[kind][ent["name"]]])})
     shim_ns = None
     n_ok = 0
     for pt in case["points"]:
